@@ -224,9 +224,45 @@ def replay_graph(rep, exe, cfgname, nthreads, nsections, tag, max_paths=None):
                 sample=path_line(nthreads, nsections, paths[len(paths) // 2])[:400])
 
 
+def apalache_induction(tier):
+    """Unbounded versions / sections: Apalache discharges Init => IndInv, IndInv /\\ Next => IndInv' and
+    IndInv => C07 for spec/OptLockInd.tla.  Error = the invariant is not inductive (a defect of the
+    specification: CheckBroken); a tool failure or timeout is recorded as inconclusive, never an alarm."""
+    import shutil
+    import subprocess
+    if shutil.which("apalache-mc") is None:
+        return {"status": "apalache-mc not found"}
+    out = os.path.join(vlib.CACHE, "apalache_%d" % os.getpid())
+    cfg = "cfg/OptLock/ind.cfg" if tier == "quick" else "cfg/OptLock/ind4.cfg"
+    jobs = [("base: Init => IndInv", ["--init=Init", "--inv=IndInv", "--length=0"]),
+            ("step: IndInv /\\ Next => IndInv'", ["--init=IndInv", "--inv=IndInv", "--length=1"]),
+            ("IndInv => OneWriter /\\ WriterHoldsBit /\\ NoBadOutcome /\\ WritersInvariant", ["--init=IndInv", "--inv=C07", "--length=0"])]
+
+    def work(job):
+        name, args = job
+        t = time.time()
+        od = os.path.join(out, str(abs(hash(name)) % 100000))
+        try:
+            p = subprocess.run(["apalache-mc", "check", "--config=" + cfg, "--out-dir=" + od] + args + ["OptLockInd.tla"],
+                               cwd=vlib.SPEC, capture_output=True, text=True, timeout=900 if tier == "quick" else 3000)
+            txt = p.stdout + p.stderr
+            res = "NoError" if "The outcome is: NoError" in txt else "Error" if "The outcome is: Error" in txt else "inconclusive (rc=%s)" % p.returncode
+        except subprocess.TimeoutExpired:
+            res = "inconclusive (timeout)"
+        return {"obligation": name, "outcome": res, "seconds": round(time.time() - t, 1)}
+    res = vlib.parallel_map(work, jobs, workers=3)
+    shutil.rmtree(out, ignore_errors=True)
+    for r in res:
+        if r["outcome"] == "Error":
+            raise vlib.CheckBroken("OptLockInd: %s fails (Apalache reports a counterexample)" % r["obligation"])
+    return {"module": "OptLockInd", "config": cfg, "obligations": res,
+            "claim": "C07 invariants for unbounded lock versions and any number of sections per thread (threads as in the config)"}
+
+
 def run(prop, tier, seed):
     t0 = time.time()
     rep = vlib.Report(prop)
+    ind_future = __import__("concurrent.futures").futures.ThreadPoolExecutor(1).submit(apalache_induction, tier)
     # 1. exhaustive model checking
     cfgs = ["t2s2", "t2s3", "t3s1", "t3s2"]
     mc = vlib.parallel_map(lambda c: (c, vlib.tlc("OptLock", "cfg/OptLock/%s.cfg" % c, workers=4 if c != "t3s2" else 8,
@@ -266,6 +302,7 @@ def run(prop, tier, seed):
     rc = rep.finish()
     cov = {
         "states": dist, "transitions": gen,
+        "inductive_invariant_apalache": ind_future.result(),
         "traces_validated_against_impl": sum(r["paths"] for r in replays),
         "samples": [r["sample"] for r in replays[:2]],
         "exhaustive": True,
